@@ -126,7 +126,7 @@ def run(ctx):
     ]
     if thorough:
         runs += [
-            ('cv_grid012', dict(mode='cv', nobs=4, nch=2, nlab=2, nfold=2, vals='Vals012', methods=BOTH,
+            ('cv_grid012', dict(mode='cv', nobs=4, nch=2, nlab=2, nfold=2, vals='Vals012', methods=('crossnobis',),
                                 rms=(False,), priorids=(1,), foldsrcs=('explicit',), emitmod=20,
                                 invs=['NoSelfPairs', 'AllFoldsUsed', 'EqualWeights', 'CvMatchesLeaveOneOut']), 0),
             ('cv_cat8', dict(mode='cv', nobs=8, nch=2, nlab=2, nfold=2, datasrc='cat', dataids=(1, 4), methods=BOTH,
@@ -138,9 +138,6 @@ def run(ctx):
             ('cv_cat6_3ch', dict(mode='cv', nobs=6, nch=3, nlab=3, nfold=3, datasrc='cat', dataids=(3, 4), methods=BOTH,
                                  rms=(False, True), precids=(0, 2), fprecids=(0, 2), priorids=(3,),
                                  foldsrcs=('explicit',), emitmod=8, invs=NOCOEF), 30),
-            ('cv_perm6', dict(mode='cv', nobs=6, nch=2, nlab=3, nfold=2, datasrc='cat', dataids=(2,), methods=BOTH,
-                              rms=(False,), precids=(0, 1), fprecids=(0, 1), priorids=(1,),
-                              foldsrcs=('explicit',), permlevel=1, agree=True, emitmod=20), 0),
         ]
     ctx.exhaustive = False
     total = 0
